@@ -139,6 +139,10 @@ def prop_final(case):
     ic = ac.make_ic(case)
     if ic.twoM == 0 or ic.S0 <= 0 or (case['mode'] == 'sets' and ic.SX0 <= 0):
         return Result([], classes=['singular'])
+    if case['mode'] == 'sets' and ic.SI0 <= 0:
+        # no susceptible node has an infected neighbour (e.g. only isolated nodes are infected): the ODE stays where it is, while
+        # Attack_rate_* is documented to return the root 'assuming an epidemic happens' - two different questions, nothing to compare
+        return Result([], classes=['no-S-I-edge'])
     N = float(ic.N)
     fails = []
     incon = None
@@ -208,6 +212,47 @@ def prop_final(case):
                                  'Attack_rate_discrete_from_graph raised %r (mode %s)' % (e, case['mode'])))
     except Exception as e:
         fails.append(Failure('Attack_rate_discrete:exception:%s' % exc_signature(e), 'raised %r' % (e,)))
+    # ---- documented default of phiS0: degree-dependent Sk0 given, phiS0 omitted = 'initial introduction randomly introduced',
+    #      i.e. a neighbour is susceptible with the size-biased probability sum_k k P(k) Sk0[k] / <K> (nobody recovered) ----
+    if incon is None and not fails and len(Pk) >= 2:
+        try:
+            kmax = max(Pk)
+            sk_dd = {k: 1.0 - min(0.9, case['rho'] * 2.0 * (k + 1) / (kmax + 1)) for k in Pk}       # hubs preferentially infected
+            kave = sum(k * Pk[k] for k in Pk)
+
+            def ph_dd(x):
+                x = np.asarray(x, dtype=float)
+                return sum(Pk[k] * sk_dd[k] * x ** k for k in Pk)
+
+            def php_dd(x):
+                x = np.asarray(x, dtype=float)
+                return sum(k * Pk[k] * sk_dd[k] * x ** (k - 1) for k in Pk if k >= 1)
+            phiS_dd = float(php_dd(1.0)) / kave
+
+            def lim_c(T):
+                t, S, I, R = EoN.EBCM(N, ph_dd, php_dd, tau, gamma, phiS_dd, phiR0=0, R0=0, tmin=0, tmax=T, tcount=3)
+                return float(R[-1] + I[-1]) / N, float(I[-1]) / N
+
+            def lim_d(T):
+                t, S, I, R = EoN.EBCM_discrete(N, ph_dd, php_dd, p, phiS_dd, phiR0=0, R0=0, tmin=0, tmax=T)
+                return float(R[-1] + I[-1]) / N, float(I[-1]) / N
+            T = 60.0 / min(gamma, 1.0)
+            (c1, _), (c2, ci) = lim_c(T), lim_c(2 * T)
+            (e1, _), (e2, ei) = lim_d(400), lim_d(800)
+            g1 = EoN.Attack_rate_cts_time(Pk, tau, gamma, number_its=400, Sk0=dict(sk_dd))
+            g2 = EoN.Attack_rate_cts_time(Pk, tau, gamma, number_its=800, Sk0=dict(sk_dd))
+            h1 = EoN.Attack_rate_discrete(Pk, p, Sk0=dict(sk_dd), number_its=400)
+            h2 = EoN.Attack_rate_discrete(Pk, p, Sk0=dict(sk_dd), number_its=800)
+            if abs(c1 - c2) <= 1e-9 and abs(g1 - g2) <= 1e-9 and ci <= 1e-9 and abs(g2 - c2) > 1e-6:
+                fails.append(Failure('Attack_rate_cts_time:default-phiS0',
+                                     'degree-dependent Sk0=%r, phiS0 omitted: Attack_rate_cts_time=%.9g, EBCM limit with phi_S(0)=sum k P(k) Sk0[k]/<K>=%.6g gives %.9g'
+                                     % (sk_dd, g2, phiS_dd, c2)))
+            if abs(e1 - e2) <= 1e-9 and abs(h1 - h2) <= 1e-9 and ei <= 1e-9 and abs(h2 - e2) > 1e-7:
+                fails.append(Failure('Attack_rate_discrete:default-phiS0',
+                                     'degree-dependent Sk0=%r, phiS0 omitted: Attack_rate_discrete=%.9g, EBCM_discrete limit with phi_S(0)=sum k P(k) Sk0[k]/<K>=%.6g gives %.9g'
+                                     % (sk_dd, h2, phiS_dd, e2)))
+        except Exception as e:
+            fails.append(Failure('Attack_rate:default-phiS0:exception:%s' % exc_signature(e), 'raised %r' % (e,)))
     ar = locals().get('ar2', 0)
     return Result(fails, nontrivial=0.02 < ar < 0.98, classes=['mode=' + case['mode']] + (['inconclusive'] if incon else []), inconclusive=incon)
 
